@@ -1432,6 +1432,32 @@ func checkStepResultsCount(c *core.Ctx, st *core.RuleStat, rule string, pi *PkgI
 									}
 								}
 							}
+							// every path from that edge returns true (`if !step() { return false }; ...; return true`)
+							if !counted {
+								g := core.BuildGraph(fn, 0, nil)
+								if ifn := g.NodeOf(x); ifn != nil {
+									idx := 0
+									if neg {
+										idx = 1
+									}
+									if idx < len(ifn.Succs) {
+										allTrue, some := true, false
+										okW := g.Walk([]core.State{{N: ifn.Succs[idx], F: core.FactFor(ifn, call, 1)}}, core.WalkOpts{ForwardOnly: true}, func(y core.State) {
+											ret, isRet := y.N.Instr.(*ssa.Return)
+											if !isRet || len(ret.Results) != 1 {
+												return
+											}
+											some = true
+											if core.EvalFact(y.N, ret.Results[0], y.F) <= 0 {
+												allTrue = false
+											}
+										})
+										if okW && some && allTrue {
+											counted = true
+										}
+									}
+								}
+							}
 							// a block that only merges into a phi with true
 							if len(succ.Instrs) == 1 && len(succ.Succs) == 1 {
 								nxt := succ.Succs[0]
